@@ -176,3 +176,38 @@ func (g *storeGen) single(t TypeRef, depth int) interface{} {
 	}
 	return nil
 }
+
+// GenerateEvents draws n further values for a root field (subscription events) over the entities of st.
+func GenerateEvents(t *rapid.T, m *Model, st *Store, root, field string, n int) []interface{} {
+	g := &storeGen{t: t, m: m, opt: DefaultStoreOptions(), st: st, byTy: map[string][]string{}, tok: 5000}
+	ids := make([]string, 0, len(st.Entities))
+	for id := range st.Entities {
+		ids = append(ids, id)
+	}
+	sortStrings(ids)
+	for _, id := range ids {
+		g.byTy[st.Entities[id].Type] = append(g.byTy[st.Entities[id].Type], id)
+	}
+	var fd *Field
+	for _, f := range m.Roots[root] {
+		if f.Name == field {
+			fd = f
+		}
+	}
+	if fd == nil {
+		return nil
+	}
+	res := make([]interface{}, n)
+	for i := range res {
+		res[i] = g.value(fd.Type, 0)
+	}
+	return res
+}
+
+func sortStrings(a []string) {
+	for i := 1; i < len(a); i++ {
+		for j := i; j > 0 && a[j] < a[j-1]; j-- {
+			a[j], a[j-1] = a[j-1], a[j]
+		}
+	}
+}
